@@ -9,4 +9,5 @@ pub mod emfh;
 pub mod emfgen;
 pub mod iofault;
 pub mod bq;
+pub mod c07gen;
 pub mod props;
